@@ -212,6 +212,19 @@ def run(ctx):
       if e['exc']:
         k = t['est'] + ':' + e['exc']
         ctx.extra['exceptions_by_class'][k] = ctx.extra['exceptions_by_class'].get(k, 0) + 1
+  # fits performed by the repository's own tests: postcondition of ObjLife!Fit (fitted, n_features_in_ = features of
+  # the data handed to fit, returns self) on every one of them
+  import suite
+  evs, summary = core.record_suite_calls(os.path.join(ctx.work, 'suite'),
+                                         files=['test/test_fit_transform.py', 'test/test_mahalanobis_mixin.py'] if ctx.quick else ['test/'])
+  lp = suite.judge_life(ctx, evs, 300 if ctx.quick else 0)
+  ctx.extra['suite_object_histories']['pytest_summary'] = summary
+
+  def stale_suite_nfeat(t):
+    e = next(e for e in t['events'] if e['act'] == 'fit' and e['exc'] == '' and e['d'] != -1)
+    e['after'] = dict(e['after'], nfeat=e['d'] + 1)
+  lgood = next(t for r, t in lp if any(e['act'] == 'fit' and e['exc'] == '' and e['d'] != -1 for e in t['events']))
+  core.selftest_binding(ctx, *suite.LIFE_SPEC, lgood, stale_suite_nfeat, 'C03.suite_fit_postcondition', 'suite_stale_n_features_in')
   good = next(t for r, t in pairs if all(e['exc'] == '' for e in t['events']))
 
   def corrupt_nfeat(t):
